@@ -856,7 +856,28 @@ func replay(path string) int {
 	spec := props[v.Prop]
 	mode := spec.Mode
 	if v.Class == "C07:fresh-process-differs" {
-		mode = "plain"
+		// the canonical-order run once, the uninstrumented build in 8 fresh processes
+		cbin, _ := buildWorker(v.Prop, "mapctl", false)
+		pbin, _ := buildWorker(v.Prop, "plain", false)
+		obs := func(bin string) string {
+			out, _ := exec.Command(bin, "-prop", v.Prop, "-obs", path).Output()
+			return strings.TrimSpace(string(out))
+		}
+		h0 := obs(cbin)
+		differ := 0
+		fmt.Println("canonical order (instrumented build):", h0)
+		for i := 0; i < 8; i++ {
+			h := obs(pbin)
+			fmt.Printf("fresh process %d (uninstrumented build): %s\n", i, h)
+			if h != h0 {
+				differ++
+			}
+		}
+		fmt.Printf("replay: %d of 8 fresh processes returned a different layout than the canonical-order run\n", differ)
+		if differ > 0 {
+			return 1
+		}
+		return 0
 	}
 	bin, _ := buildWorker(v.Prop, mode, false)
 	tier := v.Tier
